@@ -15,7 +15,7 @@
 
     c15.pipe <nprocs> <negate> <max> <startRe> <contRe> <nstreams> (<src> <name> <n> item…)…
         item = P | E <id> <startOK> <contOK> <tree>
-    result = <ncalls> call… <nstreams> (<nout> <tree>…)… ok
+    result = <ncalls> call… <nstreams> (<nout> <tree>…)… (ok | stuck)
         call = <instance> (T <tag> | E <id>) R <res> <nprop> (<tag> <tree>)… (N | E <tag> <tree>)
     (a real pipeline run: calls of all join instances in one global order, then what arrived at
      the output per stream; tag = index of the stream in the case)
@@ -309,13 +309,14 @@ def handle (cmd : String) (args impl : List String) : Option (String × String) 
     if r ≠ [] then none
     let cfg : Cfg := ⟨[str "log"], max, neg⟩
     let evs := streams.flatten
-    match impl with
-    | ["stuck"] => pure ("-", "stuck")
-    | _ =>
     let (calls, r) ← pCounted (pPCall evs) impl
     let (nso, r) ← pNat r
     let (outs, r) ← pMany pTrees nso r
-    if r ≠ ["ok"] then none
+    -- `stuck`: the run did not come to rest in time (e.g. a run was never closed)
+    let fin ← match r with
+      | ["ok"] => some "ok"
+      | ["stuck"] => some "stuck"
+      | _ => none
     -- model: every instance replayed through Join.step; outputs per stream from the spec
     let (toks, ok) := replay cfg [] calls
     let tags := List.range ns
@@ -323,7 +324,7 @@ def handle (cmd : String) (args impl : List String) : Option (String × String) 
     let specOuts := perStream.map (fun items => (SpecC15.spec cfg items).map (·.root))
     let m := if ok then
         unwords ([toString calls.length] ++ toks ++ [toString ns] ++
-          specOuts.map (fun o => unwords (toString o.length :: o.map JTree.enc)) ++ ["ok"])
+          specOuts.map (fun o => unwords (toString o.length :: o.map JTree.enc)) ++ [fin])
       else unwords ([toString calls.length] ++ toks)
     -- property oracle on the observed trace
     let views := (instances calls).map (fun i => (calls.filter (·.inst == i)).map (·.inp))
@@ -331,6 +332,7 @@ def handle (cmd : String) (args impl : List String) : Option (String × String) 
     let order := (tags.zip streams).all (fun (t, evs) => streamIds calls t == evs.map (·.1))
     let outsOK := nso == ns && (outs.zip specOuts).all (fun (a, b) => treesEq a b)
     let p := if !hyps then "fail:hypothesis" else if !order then "fail:order"
+             else if fin != "ok" then "fail:stuck"
              else if !outsOK then "fail:output" else "ok"
     pure (m, p)
   | _ => none
